@@ -1151,15 +1151,48 @@ def _intlike(t):
     return False
 
 
+def linform(t):
+    """Integer term as a linear form: ({atom: coeff}, const)."""
+    if is_c(t):
+        if isinstance(t[1], int) and not isinstance(t[1], bool):
+            return {}, t[1]
+        return None
+    if t[0] == "bin" and t[1] in ("+", "-"):
+        a, b = linform(t[2]), linform(t[3])
+        if a is None or b is None:
+            return None
+        sign = 1 if t[1] == "+" else -1
+        d = dict(a[0])
+        for k, v in b[0].items():
+            d[k] = d.get(k, 0) + sign * v
+        return {k: v for k, v in d.items() if v != 0}, a[1] + sign * b[1]
+    if t[0] == "un" and t[1] == "-":
+        a = linform(t[2])
+        if a is None:
+            return None
+        return {k: -v for k, v in a[0].items()}, -a[1]
+    if t[0] == "bin" and t[1] == "*":
+        for x, y in ((t[2], t[3]), (t[3], t[2])):
+            if is_c(x) and isinstance(x[1], int):
+                a = linform(y)
+                if a is not None:
+                    return {k: v * x[1] for k, v in a[0].items() if v * x[1] != 0}, a[1] * x[1]
+    if t[0] in ("call", "p", "sub", "attr", "iter", "bin", "g", "len", "un"):
+        return {t: 1}, 0
+    return None
+
+
 def _lin(t):
-    """term = base + k  ->  (base, k) for a symbolic integer base"""
-    if t[0] == "bin" and t[1] in ("+", "-") and is_c(t[3]) and isinstance(t[3][1], int):
-        b, k = _lin(t[2])
-        if b is not None:
-            return b, k + (t[3][1] if t[1] == "+" else -t[3][1])
-    if t[0] in ("call", "p", "sub", "attr", "iter", "bin", "g", "len") and not is_c(t):
-        return t, 0
-    return None, 0
+    """term = base + k  ->  (base, k): base is a canonical (hashable) linear combination of atoms"""
+    lf = linform(t)
+    if lf is None or not lf[0]:
+        return None, 0
+    items = lf[0]
+    if len(items) == 1:
+        (atom, coeff), = items.items()
+        if coeff == 1:
+            return atom, lf[1]
+    return ("lin", tuple(sorted(items.items(), key=lambda kv: tstr(kv[0])))), lf[1]
 
 
 def _as_load(t):
